@@ -270,7 +270,10 @@ def judge_isolate(case):
                           "before-BEGIN-VCALENDAR": ([line] + full, Calendar, False),
                           "after-outermost-VEVENT": (K_EVENT + [line], Event, False),
                           "after-outermost-VEVENT-multiple": (K_EVENT + [line] + K_TODO, Calendar, True),
-                          "between-outermost-components": (K_TODO + [line] + K_EVENT, Calendar, True)}
+                          "between-outermost-components": (K_TODO + [line] + K_EVENT, Calendar, True),
+                          # a top-level X-COMMENT line is tolerated by the parser; what follows it is still outside every component
+                          "after-a-top-level-X-COMMENT": (full + ["X-COMMENT:c", line], Calendar, False),
+                          "after-a-leading-X-COMMENT-multiple": (["X-COMMENT:c"] + K_TODO + [line] + K_EVENT, Calendar, True)}
                 for place, (lines, cls, multiple) in places.items():
                     sut.reset(provider)
                     try:
